@@ -7,6 +7,8 @@ def run(req):
     a = req.get("args", {})
     if fn in ("trajgrad.trap_grad", "trajgrad.min_trap_grad"):
         return _trap(fn, a)
+    if fn == "interp.check":
+        return _interp(a)
     if fn == "fourier.fft":
         return _fft(a)
     if fn == "app.lls":
@@ -929,3 +931,68 @@ def _app_run(a):
             if calls["u"] != mi or alg.iter != mi:
                 bad.append("App.run performed %d updates (iter=%d) for max_iter=%d, show_pbar=%s" % (calls["u"], alg.iter, mi, pbar))
     return dict(reproduced=bool(bad), detail="; ".join(bad[:3]) or "App.run performs exactly max_iter updates")
+
+
+# ----------------------------------------------------------------------------- C07 interpolate / gridding
+_AS1 = [1, 3.5156229, 3.0899424, 1.2067492, 0.2659732, 0.0360768, 0.0045813]
+_AS2 = [0.39894228, 0.01328592, 0.00225319, -0.00157565, 0.00916281, -0.02057706, 0.02635537, -0.01647633, 0.00392377]
+
+
+def _ref_kernel(kind, x, p):
+    ax = abs(x)
+    if ax > 1:
+        return 0.0
+    if kind == "spline":
+        o = int(p)
+        if o == 0:
+            return 1.0
+        if o == 1:
+            return 1 - ax
+        t = 1.5 * ax
+        return 0.75 - t * t if t <= 0.5 else 0.5 * (1.5 - t) ** 2
+    u = p * np.sqrt(1 - x * x)
+    t = u / 3.75
+    if u < 3.75:
+        return float(sum(c * t ** (2 * i) for i, c in enumerate(_AS1)))
+    return float(u ** -0.5 * np.exp(u) * sum(c * t ** (-i) for i, c in enumerate(_AS2)))
+
+
+def _interp(a):
+    import itertools
+    import sigpy as sp
+    rs = np.random.RandomState(int(a.get("seed", 0)))
+    grid, batch = list(a["grid"]), list(a.get("batch", []))
+    D = len(grid)
+    kind = a.get("kernel", "spline")
+    width, param = a.get("width", 2.5), a.get("param", 1)
+    coords = np.array(a["coord"], dtype=float).reshape(-1, D) if "coord" in a else rs.uniform(-max(grid), 2 * max(grid), size=(int(a.get("npts", 5)), D))
+    if a.get("special") == "half-integers":
+        coords = np.round(coords * 2) / 2
+    elif a.get("special") == "integers":
+        coords = np.round(coords)
+    elif a.get("special") == "duplicates":
+        coords[1:] = coords[0]
+    W = [float(width)] * D if np.isscalar(width) else [float(w) for w in width]
+    Pm = [param] * D if np.isscalar(param) else list(param)
+    x = rs.standard_normal(batch + grid) + 1j * rs.standard_normal(batch + grid)
+    npts = coords.shape[0]
+    want = np.zeros(batch + [npts], dtype=complex)
+    wgrid = np.zeros(batch + grid, dtype=complex)
+    y = rs.standard_normal(batch + [npts]) + 1j * rs.standard_normal(batch + [npts])
+    for j in range(npts):
+        rngs = [range(int(np.ceil(coords[j, d] - W[d] / 2)), int(np.floor(coords[j, d] + W[d] / 2)) + 1) for d in range(D)]
+        for g in itertools.product(*rngs):
+            w = 1.0
+            for d in range(D):
+                w *= _ref_kernel(kind, (g[d] - coords[j, d]) / (W[d] / 2), Pm[d])
+            gi = tuple(g[d] % grid[d] for d in range(D))
+            want[..., j] += w * x[(Ellipsis,) + gi]
+            wgrid[(Ellipsis,) + gi] += w * y[..., j]
+    bad = []
+    got = sp.interpolate(x.copy(), coords, kernel=kind, width=width, param=param)
+    if got.shape != want.shape or np.max(np.abs(got - want)) > 1e-9 * max(1, np.max(np.abs(want))):
+        bad.append("interpolate differs from the documented kernel sum by %g" % (np.max(np.abs(got - want)) if got.shape == want.shape else -1))
+    gg = sp.gridding(y.copy(), coords, batch + grid, kernel=kind, width=width, param=param)
+    if gg.shape != wgrid.shape or np.max(np.abs(gg - wgrid)) > 1e-9 * max(1, np.max(np.abs(wgrid))):
+        bad.append("gridding differs from the transposed kernel sum by %g" % (np.max(np.abs(gg - wgrid)) if gg.shape == wgrid.shape else -1))
+    return dict(reproduced=bool(bad), detail="; ".join(bad) or "matches the documented kernel sums")
